@@ -20,6 +20,7 @@ Every event is logged with its virtual timestamp in `FakeNet.log`.
 from __future__ import annotations
 
 import asyncio
+import sys
 import collections
 from typing import Callable, Optional
 
@@ -130,7 +131,20 @@ class FakeTransport(asyncio.Transport):
             return
         self._closing = True
         self._conn_lost += 1
-        self.closed_by = self.closed_by or "client"
+        if self.closed_by is None:
+            # StreamWriter.__del__ (Python >= 3.11.? / 3.12) closes a transport nobody closed: that is the interpreter's
+            # finaliser cleaning up after the client, not the client closing the connection
+            f, by_finalizer = sys._getframe(1), False
+            for _ in range(3):
+                if f is None:
+                    break
+                if f.f_code.co_name == "__del__":
+                    by_finalizer = True
+                    break
+                f = f.f_back
+            self.closed_by = "finalizer" if by_finalizer else "client"
+            if by_finalizer:
+                self.net.finalizer_closed.append(self.cid)
         lat = self.net.close_latency
         if lat > 0:
             # a close that has to wait (unsent data still buffered): connection_lost is reported later
@@ -232,6 +246,7 @@ class FakeNet:
         self.inflight = 0
         self.arm_on_accept: list = []   # write-fault positions to arm on the next accepted connections
         self.close_latency = 0.0         # virtual seconds between transport.close() and connection_lost
+        self.finalizer_closed: list = []  # connections the client dropped without closing them (closed by StreamWriter.__del__)
         self.pause_on_accept: list = []  # back-pressure positions (n-th write) for the next accepted connections
         _CURRENT[0] = self
 
